@@ -151,13 +151,56 @@ def msg_mutations(data, struct, tier, enc):
                     yield ('field', s0, list(tup))
 
 
+def numeral_shapes(w):
+    """texts a numeric / decimal / date element can be handed: every notation a number parser might know (exponents,
+    fractions, signs, separators, prefixes, special values, other digit scripts), among them exponents so large that
+    a careless conversion computes for hours - each padded to the width w in three ways"""
+    core_shapes = ['1e5', '1E5', '1.5', '.5', '5.', '1e', 'e5', '1e+5', '1e-5', '1.e5', '01.e99999999', '1e99999999',
+                   '9e999999999', '1E+9999999', '1.0E+999999', '0x1F', '0o17', '0b11', '1_000', '+12', '-12', '- 12',
+                   'inf', '-inf', 'nan', 'Infinity', 'NaN', 'sNaN', '1,5', '1 2', '--1', '++1', '1-', '0.0.0', '1e1e1',
+                   '\u0661\u0662', '\u00b2', '\uff11', '1/2', '1%', '$1', '(1)', '1d', '1L', '1j', 'True', 'None']
+    out = []
+    for t in core_shapes:
+        if len(t) <= w:
+            for v in {t.zfill(w), t.rjust(w), t.ljust(w)}:
+                out.append(v)
+    if w >= 5:
+        out += ['9' * w, 'e' * w, '.' * w, '1e' + '9' * (w - 2), '1.e' + '9' * (w - 3), '.1e' + '9' * (w - 3),
+                '1.0e-' + '9' * (w - 5), '1E+' + '9' * (w - 3), '0' * (w - 4) + '1.e9', '1.e' + '0' * (w - 4) + '9',
+                '9.e+' + '9' * (w - 4)]
+    return out
+
+
+def shape_mutations(data, struct, cfg, enc):
+    """('field', offset, bytes) replacements of the data of every fixed-width TYPED element by every numeral shape"""
+    for name, s0, e0 in struct:
+        if not name.endswith('.data') or not name.startswith('DE'):
+            continue
+        bc = cfg.get(name[2:].split('.')[0])
+        if not bc or not bc.get('field_python_type') or iso_ref.prefix_len(bc):
+            continue
+        w = e0 - s0
+        for t in numeral_shapes(w):
+            try:
+                b = t.encode(enc)
+            except UnicodeEncodeError:
+                continue
+            if len(b) == w and b != data[s0:e0]:
+                yield ('field', s0, list(b))
+
+
 def run_msg_task(task, acc):
     base = corpus.encoded(task['msg'], task['enc'], task['hex'])
     data, struct, cfg, cfgname = base
-    muts = list(msg_mutations(data, struct, task['tier'], task['enc']))
+    if task.get('shapes'):
+        muts = list(shape_mutations(data, struct, cfg, task['enc']))
+    else:
+        muts = list(msg_mutations(data, struct, task['tier'], task['enc']))
     part, of = task['part'], task['of']
     for i in range(part, len(muts), of):
         case = {'kind': 'msg', 'msg': task['msg'], 'enc': task['enc'], 'hex': task['hex'], 'mut': list(muts[i])}
+        if task.get('shapes'):
+            core.note_current(case)
         if i == part + of:
             acc.sample(dict(case, base_len=len(data)))
         check_msg_case(case, acc, base)
@@ -447,6 +490,11 @@ def tasks(tier, seed):
                     continue
                 for part in range(of):
                     ts.append({'t': 'msg', 'msg': name, 'enc': enc, 'hex': hx, 'part': part, 'of': of, 'tier': tier})
+    for name in ('plain', 'typed', 'wide', 'gen'):
+        for enc, hx in (('latin_1', False), ('cp500', False), ('utf-8', False), ('latin_1', True)):
+            if name == 'wide' and enc != 'latin_1':
+                continue
+            ts.append({'t': 'msg', 'msg': name, 'enc': enc, 'hex': hx, 'part': 0, 'of': 1, 'tier': tier, 'shapes': True})
     k = 3 if tier == 'quick' else 5
     for cfgname in ('PKG', 'CUSTOM', 'GEN%d' % (seed % 14)):
         if cfgname == 'CUSTOM':
